@@ -152,6 +152,38 @@ def wellformed(plan):
     return problems
 
 
+def answer_closure(plan):
+    """the steps the LAST step's result is computed from (the last step, its sub-steps, and everything they refer to, transitively)"""
+    steps = plan.steps
+    if not steps:
+        return []
+    todo, seen, out = [len(steps) - 1], set(), []
+    while todo:
+        i = todo.pop()
+        if i in seen or not isinstance(i, int) or not (0 <= i < len(steps)):
+            continue
+        seen.add(i)
+        for st, _, _ in all_steps([steps[i]]):
+            out.append(st)
+            for r in results_in(st):
+                if isinstance(r.step_num, int):
+                    todo.append(r.step_num)
+    return out
+
+
+def answer_sources(plan):
+    """-> ({integration: {lower-cased table names}}, [(namespace, lower-cased predictor parts)]) read by the steps the answer is computed from"""
+    from mindsdb_sql.planner import steps as S
+    tabs, preds = {}, []
+    for st in answer_closure(plan):
+        if isinstance(st, S.FetchDataframeStep) and st.query is not None:
+            for t in tables_of(st.query):
+                tabs.setdefault(st.integration, set()).add(str(t.parts[-1]).lower())
+        if isinstance(st, (S.ApplyPredictorStep, S.ApplyPredictorRowStep, S.ApplyTimeseriesPredictorStep)):
+            preds.append((st.namespace, [str(x).lower() for x in st.predictor.parts]))
+    return tabs, preds
+
+
 def fetches(plan):
     from mindsdb_sql.planner.steps import FetchDataframeStep
     return [s for s, _, _ in all_steps(plan.steps) if isinstance(s, FetchDataframeStep)]
